@@ -1,5 +1,6 @@
 import OxiVerif.Base.Driver
 import OxiVerif.Model.C28
+import OxiVerif.Model.C28Dest
 /-!
 Driver for C28 (request / answer grammar: see `harness/src/bin/c28.rs`).
 
@@ -19,8 +20,63 @@ open OxiVerif OxiVerif.C28
 structure PItem where
   isOpen : Bool
   tid : Nat
-  dest : Option (Nat × Char)
+  dest : Option Dest
   deriving Repr, Inhabited
+
+/-! ### destinations in request syntax: `<page><K>[(p;p;…)]`, p = `n` | integer (millionths) -/
+
+def arityOf : Char → Option Nat
+  | 'F' => some 0 | 'B' => some 0 | 'X' => some 3 | 'R' => some 4
+  | 'H' => some 1 | 'V' => some 1 | 'G' => some 1 | 'W' => some 1
+  | _ => none
+
+def parseIntChars (cs : List Char) : Option Int :=
+  match cs with
+  | '-' :: r => (String.ofList r).toNat?.map fun n => - Int.ofNat n
+  | _ => (String.ofList cs).toNat?.map Int.ofNat
+
+def parseParam (s : String) : Option (Option Int) :=
+  if s = "n" then some none else (parseIntChars s.toList).map some
+
+def mkDest (page : DPage) (k : Char) (ps : List (Option Int)) : Option Dest :=
+  match k, ps with
+  | 'F', [] => some ⟨page, .fit⟩
+  | 'B', [] => some ⟨page, .fitB⟩
+  | 'X', [l, t, z] => some ⟨page, .xyz l t z⟩
+  | 'H', [t] => some ⟨page, .fitH t⟩
+  | 'V', [l] => some ⟨page, .fitV l⟩
+  | 'G', [t] => some ⟨page, .fitBH t⟩
+  | 'W', [l] => some ⟨page, .fitBV l⟩
+  | 'R', [some l, some b, some r, some t] => some ⟨page, .fitR l b r t⟩
+  | _, _ => none
+
+/-- parses a destination at the head of `cs`; returns it and the rest (`-` = none) -/
+def parseDestChars (cs : List Char) : Option (Option Dest × List Char) :=
+  match cs with
+  | '-' :: r => some (none, r)
+  | _ =>
+    let ps := cs.takeWhile Char.isDigit
+    match (String.ofList ps).toNat?, cs.dropWhile Char.isDigit with
+    | some p, k :: r =>
+      match arityOf k with
+      | none => none
+      | some n =>
+        match r with
+        | '(' :: r' =>
+          let inner := r'.takeWhile (· ≠ ')')
+          match r'.dropWhile (· ≠ ')') with
+          | ')' :: rest =>
+            match ((String.ofList inner).splitOn ";").mapM parseParam with
+            | some params => (mkDest (.num p) k params).map fun d => (some d, rest)
+            | none => none
+          | _ => none
+        | _ => (mkDest (.num p) k (List.replicate n none)).map fun d => (some d, r)
+    | _, _ => none
+
+def parseDestStr (s : String) : Option (Option Dest) :=
+  match parseDestChars s.toList with
+  | some (d, []) => some d
+  | _ => none
 
 /-- authored forest: shape for the model + per-item payload in pre-order -/
 partial def parseItems (cs : List Char) (acc : List Item) (pay : List PItem) :
@@ -32,15 +88,7 @@ partial def parseItems (cs : List Char) (acc : List Item) (pay : List PItem) :
       let r := r.dropWhile Char.isDigit
       match (String.ofList ds).toNat?, r with
       | some tid, '.' :: r =>
-        let destParse : Option (Option (Nat × Char) × List Char) :=
-          match r with
-          | '-' :: r' => some (none, r')
-          | _ =>
-            let ps := r.takeWhile Char.isDigit
-            match (String.ofList ps).toNat?, r.dropWhile Char.isDigit with
-            | some p, k :: r' => if k = 'F' ∨ k = 'X' ∨ k = 'H' ∨ k = 'B' then some (some (p, k), r') else none
-            | _, _ => none
-        match destParse with
+        match parseDestChars r with
         | some (dest, '[' :: r) =>
           -- payload is collected in pre-order: this item first, then its subtree
           match parseItems r [] (⟨c = 'o', tid, dest⟩ :: pay) with
@@ -58,21 +106,138 @@ def parseForest (s : String) : Option (List Item × List PItem) :=
   | some (items, pay, []) => some (items, pay.reverse)
   | _ => none
 
-def titleOf (tid : Nat) : List Nat :=
+/-- the authored title as code points -/
+def titleCps (tid : Nat) : List Nat :=
   let d := (toString tid).toList.map Char.toNat
-  match tid % 5 with
+  match tid % 8 with
   | 0 => 84 :: d
   | 1 => [83, 101, 99, 32, 40] ++ d ++ [41]
   | 2 => [66, 92] ++ d
-  | 3 => [195, 156] ++ d
-  | _ => d ++ [41, 40]
+  | 3 => [220, 128512] ++ d
+  | 4 => d ++ [41, 40]
+  | 5 => d ++ [13, 10, 9, 120, 13]
+  | 6 => []
+  | _ => [76] ++ d ++ [35, 47, 60, 62, 91, 93, 123, 125, 37, 92, 41] ++ List.replicate 120 120
 
-def kindName : Char → String
-  | 'F' => "Fit" | 'X' => "XYZ" | 'H' => "FitH" | _ => "FitB"
+/-- `Object::text_string` (objects/primitive.rs), which `outline_item_to_dict` uses for /Title:
+TAB, LF and the printable ASCII range stay a literal string, anything else becomes
+BOM + UTF-16BE -/
+def plainOk (c : Nat) : Bool := c = 9 || c = 10 || (32 ≤ c && c ≤ 126)
 
-def showDest : Option (Nat × Char) → String
+def utf16be (cps : List Nat) : List Nat :=
+  cps.flatMap fun c =>
+    if c < 65536 then [c / 256, c % 256]
+    else
+      let v := c - 65536
+      let hi := 55296 + v / 1024
+      let lo := 56320 + v % 1024
+      [hi / 256, hi % 256, lo / 256, lo % 256]
+
+def textString (cps : List Nat) : List Nat :=
+  if cps.all plainOk then cps else 254 :: 255 :: utf16be cps
+
+def titleOf (tid : Nat) : List Nat := textString (titleCps tid)
+
+/-- how a reader decodes a text string (ISO 32000-1 §7.9.2.2): after `FE FF` UTF-16BE (surrogate
+pairs combined), otherwise PDFDocEncoding — only its ASCII-agreeing part is accepted here -/
+def decodeUnits : List Nat → Option (List Nat)
+  | [] => some []
+  | [_] => none
+  | a :: b :: rest => (decodeUnits rest).map fun r => (a * 256 + b) :: r
+
+def combineSurrogates : List Nat → Option (List Nat)
+  | [] => some []
+  | u :: rest =>
+    if 55296 ≤ u ∧ u < 56320 then
+      match rest with
+      | l :: rest' =>
+        if 56320 ≤ l ∧ l < 57344 then
+          (combineSurrogates rest').map fun r => (65536 + (u - 55296) * 1024 + (l - 56320)) :: r
+        else none
+      | [] => none
+    else if 56320 ≤ u ∧ u < 57344 then none
+    else (combineSurrogates rest).map fun r => u :: r
+
+def readTextString : List Nat → Option (List Nat)
+  | 254 :: 255 :: rest => (decodeUnits rest).bind combineSurrogates
+  | bs => if bs.all plainOk then some bs else none
+
+/-- the written /Title (hex of the string's bytes) reads back as the authored text -/
+def titleOk (written : String) (tid : Nat) : Bool :=
+  match bytesOfHex? written with
+  | some bs => readTextString bs = some (titleCps tid)
+  | none => false
+
+/-! ### written destinations: `<page>/<Kind>(p;…)`, p = `null` | millionths; page `r<n>` = reference -/
+
+def showObjParam : DObj → String
+  | .null => "null"
+  | .real v => toString v
+  | .int v => toString (v * 1000000)
+  | _ => "?"
+
+def showArr (arr : List DObj) : String :=
+  match arr with
+  | page :: .name k :: ps =>
+    let pg := match page with
+      | .int n => toString n
+      | .ref r => s!"r{r}"
+      | _ => "?"
+    s!"{pg}/{k}(" ++ ";".intercalate (ps.map showObjParam) ++ ")"
+  | _ => "?"
+
+def showDest : Option Dest → String
   | none => "-"
-  | some (p, k) => s!"{p}/{kindName k}"
+  | some d => showArr d.toArray
+
+/-- a `Destination` in request syntax with all parameters spelled out -/
+def showDestReq (d : Dest) : String :=
+  let pg := match d.page with
+    | .num n => toString n
+    | .ref r => s!"r{r}"
+  let sp : Option Int → String
+    | none => "n"
+    | some v => toString v
+  let (k, ps) : String × List (Option Int) := match d.ty with
+    | .xyz l t z => ("X", [l, t, z])
+    | .fit => ("F", [])
+    | .fitH t => ("H", [t])
+    | .fitV l => ("V", [l])
+    | .fitR l b r t => ("R", [some l, some b, some r, some t])
+    | .fitB => ("B", [])
+    | .fitBH t => ("G", [t])
+    | .fitBV l => ("W", [l])
+  s!"{pg}{k}(" ++ ";".intercalate (ps.map sp) ++ ")"
+
+/-- the array a written destination string denotes -/
+def parseWritten (s : String) : Option (List DObj) :=
+  match s.splitOn "/" with
+  | [pg, rest] =>
+    let page : Option DObj := match pg.toList with
+      | 'r' :: ds => (String.ofList ds).toNat?.map DObj.ref
+      | cs => (parseIntChars cs).map DObj.int
+    match page, rest.splitOn "(" with
+    | some page, [k, ps] =>
+      match ps.toList.reverse with
+      | ')' :: inner =>
+        let inner := String.ofList inner.reverse
+        let params : Option (List DObj) :=
+          if inner = "" then some [] else
+          (inner.splitOn ";").mapM fun p =>
+            if p = "null" then some DObj.null else (parseIntChars p.toList).map DObj.real
+        params.map fun ps => page :: DObj.name k :: ps
+      | _ => none
+    | _, _ => none
+  | _ => none
+
+/-- the written destination, read per Table 151, is the authored one -/
+def destOk (written : String) (authored : Option Dest) : Bool :=
+  match authored with
+  | none => written = "-"
+  | some d =>
+    match parseWritten written with
+    | some arr => Spec.readDest arr = some (Spec.ofDest d)
+    | none => false
 
 def showOptNat : Option Nat → String
   | none => "-"
@@ -149,8 +314,8 @@ partial def compareNav (irecs : List IRec) : List Nav → List Item → List PIt
     let probs : List String :=
       (match ir with
        | some ir =>
-         (if ir.title = hexField (titleOf p.tid) then [] else ["title"]) ++
-         (if ir.dest = showDest p.dest then [] else ["dest"])
+         (if titleOk ir.title p.tid then [] else ["title"]) ++
+         (if destOk ir.dest p.dest then [] else ["dest"])
        | none => ["title"]) ++
       (if cnt = Spec.countEntry it then []
        else if cnt = it.countEntryOld then ["count-closed-all-descendants"] else ["count"])
@@ -164,92 +329,214 @@ partial def compareNav (irecs : List IRec) : List Nav → List Item → List PIt
 
 def dedup (l : List String) : List String := l.eraseDups
 
-/-- named destinations: authored `name=page` pairs (insertion order) vs the written name tree -/
-def judgeNames (authored : String) (written : String) : String :=
-  let pairs := (authored.splitOn ",").filterMap fun e =>
-    match e.splitOn "=" with
-    | [n, p] => p.toNat?.map fun p => (n, p)
-    | _ => none
-  let keys := ((pairs.map (·.1)).eraseDups).mergeSort (fun a b => a ≤ b)
-  let want := keys.filterMap fun k =>
-    ((pairs.filter (·.1 = k)).getLast?).map fun (n, p) => s!"{n}={p}/Fit"
-  if written = ",".intercalate want then "ok" else "fail:named-destinations"
+/-! ### named destinations, open action -/
 
-def splitNames (s : String) : String × Option String :=
-  match s.splitOn " N:" with
-  | [g, n] => (g, some n)
-  | _ => (s, none)
+/-- authored `hex(name)=dest` pairs in insertion order -/
+def parseNames (s : String) : Option (List (List Nat × Dest)) :=
+  (s.splitOn ",").mapM fun e =>
+    match e.splitOn "=" with
+    | [n, d] =>
+      match bytesOfHex? n, parseDestStr d with
+      | some n, some (some d) => some (n, d)
+      | _, _ => none
+    | _ => none
+
+def probeName (authored : List (List Nat)) : List Nat :=
+  -- "zz-missing" extended by `z` until it is not an authored name (as the harness does)
+  let base := "zz-missing".toList.map Char.toNat
+  let rec go (fuel : Nat) (n : List Nat) : List Nat :=
+    match fuel with
+    | 0 => n
+    | fuel + 1 => if authored.contains n then go fuel (n ++ [122]) else n
+  go (authored.length + 1) base
+
+/-- ` N:… L:… G:…` as the model predicts them -/
+def namesModel (adds : List (List Nat × Dest)) : String :=
+  let t := NT.build ltBytes adds
+  let n := if t.names.isEmpty then "_" else
+    ",".intercalate (t.names.map fun (k, d) => s!"{hexField k}={showArr d.toArray}")
+  let l := match t.limits with
+    | some (a, b) => s!"{hexField a},{hexField b}"
+    | none => "~"
+  let keys := (adds.map (·.1)).eraseDups
+  let g := ",".intercalate ((keys ++ [probeName keys]).map fun k =>
+    match t.get k with
+    | some d => showArr d.toArray
+    | none => "~")
+  s!" N:{n} L:{l} G:{g}"
+
+/-- the written name tree judged against the authored names (§7.9.6, §12.3.2.3): keys strictly
+ascending byte-wise, `/Limits` = least and greatest key, exactly the authored names, each
+resolving to the destination authored last for it; the library's own lookup agrees -/
+def judgeNames (adds : List (List Nat × Dest)) (n l g : String) : String :=
+  let pairs : Option (List (List Nat × String)) :=
+    if n = "_" then some [] else
+    (n.splitOn ",").mapM fun e =>
+      match e.splitOn "=" with
+      | [k, d] => (bytesOfHex? k).map fun k => (k, d)
+      | _ => none
+  match pairs with
+  | none => "fail:names-unreadable"
+  | some pairs =>
+    let keys := (adds.map (·.1)).eraseDups
+    if ¬ Spec.ascending ltBytes pairs then "fail:names-not-ascending"
+    else if pairs.length ≠ keys.length then "fail:names-count"
+    else if ¬ keys.all (fun k =>
+        match Spec.lookupWritten pairs k, Spec.authored adds k with
+        | some w, some d => destOk w (some d)
+        | _, _ => false) then "fail:names-resolve"
+    else
+      let limOk : Bool := match pairs.head?, pairs.getLast? with
+        | some a, some b => l == s!"{hexField a.1},{hexField b.1}"
+        | _, _ => l == "~"
+      if ¬ limOk then "fail:names-limits"
+      else
+        let gs := g.splitOn ","
+        let want := keys ++ [probeName keys]
+        if gs.length ≠ want.length then "fail:names-api-lookup"
+        else if (List.zip gs want).all (fun (w, k) =>
+          match Spec.authored adds k with
+          | some d => destOk w (some d)
+          | none => w = "~") then "ok" else "fail:names-api-lookup"
+
+def section? (parts : List String) (tag : String) : Option String :=
+  (parts.find? (·.startsWith tag)).map fun p => (p.drop tag.length).toString
+
+def handleOutline (forest : String) (names : Option String) (openA : Option String) (impl : String) :
+    String × String :=
+  match parseForest forest, names.mapM parseNames, openA.mapM (fun a =>
+      match a.toList with
+      | 'G' :: r => (parseDestStr (String.ofList r)).bind id
+      | _ => none) with
+  | some (items, pay), some adds, some openD =>
+    let total := sizeList items
+    let pool := List.range' 1 total
+    let code := Impl.write 0 pool items
+    let nm := match adds with
+      | some a => namesModel a
+      | none => ""
+    let am := match openD with
+      | some d => s!" A:GoTo/{showArr d.toArray}"
+      | none => ""
+    let model := showGraph code pay ++ nm ++ am
+    let parts := impl.splitOn " "
+    let implGraph := parts.headD ""
+    let oracle : String :=
+      match parseGraph implGraph with
+      | none => "fail:unreadable-outline"
+      | some (root, irecs) =>
+        let recs := irecs.map (·.r)
+        if items.isEmpty then (if recs.isEmpty then "ok" else "fail:items") else
+        if recs.length ≠ total then "fail:items"
+        else if root.count ≠ some (Int.ofNat (visibleList items)) then "fail:root-count"
+        else
+          let fuel := 2 * total + 4
+          let nav := match root.first, root.last with
+            | some f, some l => navChain recs 0 (some l) fuel (some f) none
+            | _, _ => none
+          let navProblems : Option (List String) := match nav with
+            | none => none
+            | some nv => match compareNav irecs nv items pay with
+              | some ([], ps) => some ps
+              | _ => none
+          match navProblems with
+          | some ps =>
+            let ps := dedup ps
+            if ps.isEmpty then "ok" else "fail:" ++ "+".intercalate ps
+          | none =>
+            -- not navigable as authored.  Is it exactly the defect repaired as C28-F1?
+            let spec := Spec.write 0 pool items
+            let code := ImplOld.write 0 pool items
+            let linkOnly (r : Rec) : Rec := { r with count := none }
+            let sameLinksAsCode := root.first = code.1.first ∧ root.last = code.1.last ∧
+              recs.map linkOnly = code.2.map linkOnly
+            let payloadOk := (List.zip irecs pay).all fun (ir, p) =>
+              titleOk ir.title p.tid ∧ destOk ir.dest p.dest
+            if sameLinksAsCode ∧ payloadOk ∧ (code.1, code.2.map linkOnly) ≠ (spec.1, spec.2.map linkOnly) then
+              -- counts, judged per id (ids are the pre-order positions here)
+              let cs := (List.zip recs spec.2).zip code.2 |>.map fun ((r, s), c) =>
+                if r.count = s.count then 0 else if r.count = c.count then 1 else 2
+              if cs.any (· = 2) then "fail:links+count"
+              else if cs.any (· = 1) then "fail:links-sibling-position+count-closed-all-descendants"
+              else "fail:links-sibling-position"
+            else "fail:links"
+    let oracle := if oracle ≠ "ok" then oracle else
+      match adds with
+      | none => "ok"
+      | some a =>
+        match section? parts "N:", section? parts "L:", section? parts "G:" with
+        | some n, some l, some g => judgeNames a n l g
+        | _, _, _ => "fail:named-destinations-missing"
+    let oracle := if oracle ≠ "ok" then oracle else
+      match openD with
+      | none => "ok"
+      | some d =>
+        match section? parts "A:" with
+        | some a =>
+          -- `GoTo/<dest>`
+          if a.startsWith "GoTo/" ∧ destOk (a.drop 5).toString (some d) then "ok" else "fail:open-action"
+        | none => "fail:open-action"
+    (model, oracle)
+  | _, _, _ => ("bad-request", "na")
+
+/-! ### `dst` / `dsta`: `Destination::to_array` / `from_array` -/
+
+def parseElem (e : String) : Option DObj :=
+  if e = "x" then some .null
+  else if e = "s" then some .other
+  else match e.toList with
+    | 'i' :: r => (parseIntChars r).map DObj.int
+    | 'r' :: r => (parseIntChars r).map DObj.real
+    | 'n' :: r => some (.name (String.ofList r))
+    | 'R' :: r => (String.ofList r).toNat?.map DObj.ref
+    | _ => none
+
+def showFrom : Option Dest → String
+  | some d => "ok:" ++ showDestReq d
+  | none => "err"
 
 def handle (req impl : String) : String × String :=
-  let go (forest : String) (names : Option String) : String × String :=
-    match parseForest forest with
-    | none => ("bad-request", "na")
-    | some (items, pay) =>
-      let total := sizeList items
-      let pool := List.range' 1 total
-      let code := Impl.write 0 pool items
-      let namesModel : String := match names with
-        | none => ""
-        | some a =>
-          -- BTreeMap<String, _>: ascending keys, later insertions replace
-          let pairs := (a.splitOn ",").filterMap fun e =>
-            match e.splitOn "=" with
-            | [n, p] => some (n, p)
-            | _ => none
-          let keys := ((pairs.map (·.1)).eraseDups).mergeSort (fun a b => a ≤ b)
-          " N:" ++ ",".intercalate (keys.filterMap fun k =>
-            ((pairs.filter (·.1 = k)).getLast?).map fun (n, p) => s!"{n}={p}/Fit")
-      let model := showGraph code pay ++ namesModel
-      let (implGraph, implNames) := splitNames impl
-      let oracle : String :=
-        match parseGraph implGraph with
-        | none => "fail:unreadable-outline"
-        | some (root, irecs) =>
-          let recs := irecs.map (·.r)
-          if items.isEmpty then (if recs.isEmpty then "ok" else "fail:items") else
-          if recs.length ≠ total then "fail:items"
-          else if root.count ≠ some (Int.ofNat (visibleList items)) then "fail:root-count"
-          else
-            let fuel := 2 * total + 4
-            let nav := match root.first, root.last with
-              | some f, some l => navChain recs 0 (some l) fuel (some f) none
-              | _, _ => none
-            let navProblems : Option (List String) := match nav with
-              | none => none
-              | some nv => match compareNav irecs nv items pay with
-                | some ([], ps) => some ps
-                | _ => none
-            match navProblems with
-            | some ps =>
-              let ps := dedup ps
-              if ps.isEmpty then "ok" else "fail:" ++ "+".intercalate ps
-            | none =>
-              -- not navigable as authored.  Is it exactly the defect repaired as C28-F1?
-              let spec := Spec.write 0 pool items
-              let code := ImplOld.write 0 pool items
-              let linkOnly (r : Rec) : Rec := { r with count := none }
-              let sameLinksAsCode := root.first = code.1.first ∧ root.last = code.1.last ∧
-                recs.map linkOnly = code.2.map linkOnly
-              let payloadOk := (List.zip irecs pay).all fun (ir, p) =>
-                ir.title = hexField (titleOf p.tid) ∧ ir.dest = showDest p.dest
-              if sameLinksAsCode ∧ payloadOk ∧ (code.1, code.2.map linkOnly) ≠ (spec.1, spec.2.map linkOnly) then
-                -- counts, judged per id (ids are the pre-order positions here)
-                let cs := (List.zip recs spec.2).zip code.2 |>.map fun ((r, s), c) =>
-                  if r.count = s.count then 0 else if r.count = c.count then 1 else 2
-                if cs.any (· = 2) then "fail:links+count"
-                else if cs.any (· = 1) then "fail:links-sibling-position+count-closed-all-descendants"
-                else "fail:links-sibling-position"
-              else "fail:links"
-      let oracle := if oracle ≠ "ok" then oracle else
-        match names, implNames with
-        | some a, some w => judgeNames a w
-        | none, none => "ok"
-        | _, _ => "fail:named-destinations"
-      (model, oracle)
+  let opt (s : String) : Option String := if s = "_" then none else some s
   match req.splitOn " " with
-  | [op, _np, forest] => if op = "out" ∨ op = "outb" then go forest none else ("bad-request", "na")
+  | ["dst", d] =>
+    match parseDestStr d with
+    | some (some d) =>
+      let arr := d.toArray
+      let model := showArr arr ++ "|" ++ showFrom (Dest.fromArray arr)
+      let oracle := match impl.splitOn "|" with
+        | [w, back] =>
+          if ¬ destOk w (some d) then "fail:dest-array"
+          else if back ≠ "ok:" ++ showDestReq d then "fail:dest-roundtrip" else "ok"
+        | _ => "fail:dest-array"
+      (model, oracle)
+    | _ => ("bad-request", "na")
+  | ["dsta", elems] =>
+    match (if elems = "_" then some [] else (elems.splitOn ",").mapM parseElem) with
+    | some arr =>
+      let model := showFrom (Dest.fromArray arr)
+      -- the spec side speaks only about arrays of one of the eight forms of Table 151
+      let oracle := match Spec.readDest arr with
+        | some (page, k, vs) =>
+          let pg : Option DPage := match page with
+            | .int n => if 0 ≤ n ∧ n < 4294967296 then some (.num n.toNat) else none
+            | .ref r => some (.ref r)
+            | _ => none
+          let kc : Char := if k = "XYZ" then 'X' else if k = "Fit" then 'F' else if k = "FitH" then 'H'
+            else if k = "FitV" then 'V' else if k = "FitR" then 'R' else if k = "FitB" then 'B'
+            else if k = "FitBH" then 'G' else 'W'
+          match pg.bind (fun pg => mkDest pg kc vs) with
+          | some d => if impl = "ok:" ++ showDestReq d then "ok" else "fail:dest-read"
+          | none => "na"
+        | none => "na"
+      (model, oracle)
+    | none => ("bad-request", "na")
+  | [op, _np, forest] =>
+    if op = "out" ∨ op = "outb" then handleOutline forest none none impl else ("bad-request", "na")
   | [op, _np, forest, names] =>
-    if op = "out" ∨ op = "outb" then go forest (some names) else ("bad-request", "na")
+    if op = "out" ∨ op = "outb" then handleOutline forest (opt names) none impl else ("bad-request", "na")
+  | [op, _np, forest, names, openA] =>
+    if op = "out" ∨ op = "outb" then handleOutline forest (opt names) (opt openA) impl
+    else ("bad-request", "na")
   | _ => ("bad-request", "na")
 
 def main : IO Unit := runDriver handle
